@@ -248,7 +248,10 @@ impl Sweep<'_> {
 						return Some(Violation::new("harness", format!("image build failed: {}", e)));
 					}
 				};
-				let r = recover_check(&plan.opts, &dir, model, lo, hi, &plan.keys, self.deep, plan.case_seed ^ n as u64);
+				// did a recovery flush a table before the first commit of this session?
+				let first_commit = ops.iter().position(|o| matches!(o, Op::Marker { text } if text.starts_with("invoke commit"))).unwrap_or(ops.len());
+				let recovery_flushed = gen > 1 && ops[..n.min(first_commit)].iter().any(|o| matches!(o, Op::Create { path, .. } if path.ends_with(".sst")));
+				let r = recover_check(&plan.opts, &dir, model, lo, hi, &plan.keys, self.deep, plan.case_seed ^ n as u64, recovery_flushed);
 				let _ = std::fs::remove_dir_all(&dir);
 				self.j.evaluations += 1;
 				self.j.count(if *cm == CrashModel::Process { "images.process_crash" } else { "images.power_loss" }, 1);
@@ -273,6 +276,10 @@ impl Sweep<'_> {
 					);
 					if owns(self.focus, &v.class, lo) {
 						if std::env::var("SKV_DEBUG").is_ok() {
+							for c in &model.commits {
+								eprintln!("  commit txn{} {}..{} {:?} at_seq={} at_ack={:?} sync={} logged={:?} applied={:?}", c.txn, c.first_seq, c.last_seq, c.status, c.op_at_seq, c.op_at_ack, c.durable_sync, c.logged_wal, c.applied_wal);
+							}
+							eprintln!("  lo={} hi={} n={}", lo, hi, n);
 							for (i, op) in ops.iter().enumerate().take(n + 2) {
 								eprintln!("  op {:4} {}", i, op.short());
 							}
